@@ -331,3 +331,41 @@ def unroll_block(stmts, root):
     d = _D()
     d.lits = literal_bindings(root)
     return d._block([copy.deepcopy(s) for s in stmts])
+
+
+def lift_generators(fnode):
+    """`name = (E for v in IT if C)` (a generator held in a local, bound once)  ->  a nested generator function of that name's
+    making and `name__gen()` at its uses: the pipeline spelling and the `def iter_x(): for ...: if ...: yield ...` spelling of a
+    filter then read the same to loop-based rules.  Works on (and returns) the given tree."""
+    cnt = {}
+    for n in ast.walk(fnode):
+        if isinstance(n, ast.Name) and isinstance(n.ctx, ast.Store):
+            cnt[n.id] = cnt.get(n.id, 0) + 1
+    lifted = {}
+
+    class L(ast.NodeTransformer):
+        def visit_Assign(self, n):
+            if len(n.targets) == 1 and isinstance(n.targets[0], ast.Name) and cnt.get(n.targets[0].id) == 1 and isinstance(n.value, ast.GeneratorExp):
+                g = n.value
+                body = [ast.Expr(value=ast.Yield(value=g.elt))]
+                for comp in reversed(g.generators):
+                    for c in reversed(comp.ifs):
+                        body = [ast.If(test=c, body=body, orelse=[])]
+                    body = [ast.For(target=comp.target, iter=comp.iter, body=body, orelse=[], type_comment=None)]
+                name = n.targets[0].id + "__gen"
+                lifted[n.targets[0].id] = name
+                fd = ast.FunctionDef(name=name, args=ast.arguments(posonlyargs=[], args=[], vararg=None, kwonlyargs=[], kw_defaults=[], kwarg=None, defaults=[]),
+                                     body=body, decorator_list=[], returns=None, type_comment=None, type_params=[])
+                return _loc(fd, n)
+            return n
+
+    L().visit(fnode)
+    if lifted:
+        class U(ast.NodeTransformer):
+            def visit_Name(self, n):
+                if isinstance(n.ctx, ast.Load) and n.id in lifted:
+                    return _loc(ast.Call(func=ast.Name(id=lifted[n.id], ctx=ast.Load()), args=[], keywords=[]), n)
+                return n
+        U().visit(fnode)
+        ast.fix_missing_locations(fnode)
+    return fnode
